@@ -172,6 +172,33 @@ func (c *Ctx) safeEncoded(e ast.Expr, defs map[types.Object][]ast.Expr, depth in
 			}
 			return false, "buffer holds raw text"
 		}
+		// a package helper all of whose returned byte slices are encoder results
+		if g, ok := c.callee(x).(*types.Func); ok && g.Pkg() == c.Types {
+			if gfd := c.decl(g); gfd != nil && gfd.Body != nil {
+				gdefs := c.localDefs(gfd)
+				allOK, n, why := true, 0, ""
+				ast.Inspect(gfd.Body, func(nd ast.Node) bool {
+					if _, isLit := nd.(*ast.FuncLit); isLit {
+						return false
+					}
+					rs, ok := nd.(*ast.ReturnStmt)
+					if !ok || len(rs.Results) == 0 {
+						return true
+					}
+					n++
+					if good, w := c.safeEncoded(rs.Results[0], gdefs, depth+1, func(types.Object) bool { return false }); !good {
+						allOK, why = false, w
+					}
+					return true
+				})
+				if allOK && n > 0 {
+					return true, ""
+				}
+				if n > 0 {
+					return false, why
+				}
+			}
+		}
 		return false, "result of " + exprString(x.Fun) + " is not an encoder"
 	case *ast.BinaryExpr:
 		if x.Op == token.ADD {
@@ -488,42 +515,64 @@ func ruleFragmentDisjoint(c *Ctx) {
 		c.ob(rule, fl.typ+".MarshalJSON:key-filter", fd.Pos(), stores > 0 && stores == guarded, why)
 	}
 
-	// Schema.ExtraProps: only written by Schema.UnmarshalJSON, after every tagged name is removed and x- keys are routed away
-	var writers []string
-	for _, fd := range c.allFuncDecls() {
-		if fd.Body == nil {
-			continue
-		}
+	// Schema.ExtraProps: only written by Schema.UnmarshalJSON (or a helper only it calls), after every tagged name
+	// has been removed and with x- keys routed away
+	storesExtra := func(fd *ast.FuncDecl) []*ast.AssignStmt {
+		var out []*ast.AssignStmt
 		ast.Inspect(fd.Body, func(n ast.Node) bool {
-			as, ok := n.(*ast.AssignStmt)
-			if !ok {
-				return true
-			}
-			for _, l := range as.Lhs {
-				if p, ok := c.apath(l); ok {
-					for _, s := range p.Steps {
-						if s == "ExtraProps" {
-							if _, isField := p.Root.(*types.Var); isField {
-								writers = append(writers, c.funcName(fd))
-							}
-						}
+			if as, ok := n.(*ast.AssignStmt); ok {
+				for _, l := range as.Lhs {
+					if p, ok := c.apath(l); ok && len(p.Steps) >= 2 && p.Steps[len(p.Steps)-2] == "ExtraProps" {
+						out = append(out, as)
 					}
 				}
 			}
 			return true
 		})
+		return out
 	}
-	okW := len(writers) > 0
-	for _, w := range writers {
-		if w != "Schema.UnmarshalJSON" {
-			okW = false
+	u := c.decl(c.method("Schema", "UnmarshalJSON"))
+	var uf *types.Func
+	if u != nil {
+		uf, _ = c.Info.Defs[u.Name].(*types.Func)
+	}
+	ownedByDecoder := func(fd *ast.FuncDecl) bool {
+		if fd == u {
+			return true
+		}
+		self, _ := c.Info.Defs[fd.Name].(*types.Func)
+		if self == nil || self.Exported() {
+			return false
+		}
+		n, ok := 0, true
+		for _, g := range c.pkgFuncs() {
+			for _, h := range c.staticCallees(g) {
+				if h == self {
+					n++
+					if g != uf {
+						ok = false
+					}
+				}
+			}
+		}
+		return ok && n > 0
+	}
+	var writers, badWriters []string
+	var storeFuncs []*ast.FuncDecl
+	for _, fd := range c.allFuncDecls() {
+		if fd.Body == nil || len(storesExtra(fd)) == 0 {
+			continue
+		}
+		writers = append(writers, c.funcName(fd))
+		storeFuncs = append(storeFuncs, fd)
+		if !ownedByDecoder(fd) {
+			badWriters = append(badWriters, c.funcName(fd))
 		}
 	}
-	c.ob(rule, "Schema.ExtraProps:writers", token.NoPos, okW, fmt.Sprintf("ExtraProps is written by %v; only Schema.UnmarshalJSON filters its keys", writers))
-	if u := c.decl(c.method("Schema", "UnmarshalJSON")); u != nil {
+	c.ob(rule, "Schema.ExtraProps:writers", token.NoPos, len(writers) > 0 && len(badWriters) == 0, fmt.Sprintf("ExtraProps is written by %v; only Schema.UnmarshalJSON (and helpers of its own) filter its keys", badWriters))
+	if u != nil {
 		c.saw(c.funcName(u))
-		recv := c.recvObj(u)
-		// the generic map
+		// the loop over the generic map that (directly or through an owned helper) fills ExtraProps
 		var genMap types.Object
 		var fillLoop *ast.RangeStmt
 		ast.Inspect(u.Body, func(n ast.Node) bool {
@@ -531,18 +580,30 @@ func ruleFragmentDisjoint(c *Ctx) {
 			if !ok {
 				return true
 			}
-			hasExtra := false
+			if _, isMap := c.typeOf(rs.X).Underlying().(*types.Map); !isMap {
+				return true
+			}
+			fills := false
 			ast.Inspect(rs.Body, func(m ast.Node) bool {
-				if as, ok := m.(*ast.AssignStmt); ok {
-					for _, l := range as.Lhs {
+				switch x := m.(type) {
+				case *ast.AssignStmt:
+					for _, l := range x.Lhs {
 						if p, ok := c.apath(l); ok && len(p.Steps) >= 2 && p.Steps[len(p.Steps)-2] == "ExtraProps" {
-							hasExtra = true
+							fills = true
+						}
+					}
+				case *ast.CallExpr:
+					if g, ok := c.callee(x).(*types.Func); ok && g.Pkg() == c.Types {
+						for _, sf := range storeFuncs {
+							if c.decl(g) == sf {
+								fills = true
+							}
 						}
 					}
 				}
 				return true
 			})
-			if hasExtra {
+			if fills {
 				fillLoop = rs
 				if id, ok := unparen(rs.X).(*ast.Ident); ok {
 					genMap = c.objOf(id)
@@ -553,7 +614,6 @@ func ruleFragmentDisjoint(c *Ctx) {
 		if fillLoop == nil || genMap == nil {
 			c.undecided(rule, "Schema.UnmarshalJSON:fill-loop", u.Pos(), "cannot find the loop that fills ExtraProps from the generic map")
 		} else {
-			// deletes of every tagged name precede the loop: range over GetJSONNames(recv) { delete(genMap, name) }
 			delAll := false
 			ast.Inspect(u.Body, func(n ast.Node) bool {
 				rs, ok := n.(*ast.RangeStmt)
@@ -585,7 +645,6 @@ func ruleFragmentDisjoint(c *Ctx) {
 				})
 				return true
 			})
-			_ = recv
 			handDeleted := map[string]bool{}
 			ast.Inspect(u.Body, func(n ast.Node) bool {
 				if dc, ok := n.(*ast.CallExpr); ok && c.isBuiltin(dc, "delete") && len(dc.Args) == 2 && dc.Pos() < fillLoop.Pos() {
@@ -603,22 +662,14 @@ func ruleFragmentDisjoint(c *Ctx) {
 			}
 			c.ob(rule, "Schema.UnmarshalJSON:deletes-tagged-names", u.Pos(), delAll,
 				"every tagged member name of Schema must be deleted from the generic map before the rest is parked in ExtraProps, or a keyword is emitted twice")
-			// at every ExtraProps store the key is known not to be an x- key (continue, else-branch, ...: any form)
+			// at every ExtraProps store (in the loop or in the owned helper) the key is known not to be an x- key
 			routed, nstores := true, 0
-			ast.Inspect(fillLoop.Body, func(n ast.Node) bool {
-				as, ok := n.(*ast.AssignStmt)
-				if !ok {
-					return true
-				}
-				for _, l := range as.Lhs {
-					p, ok := c.apath(l)
-					if !ok || len(p.Steps) < 2 || p.Steps[len(p.Steps)-2] != "ExtraProps" {
-						continue
-					}
+			for _, sf := range storeFuncs {
+				for _, as := range storesExtra(sf) {
 					nstores++
 					excluded := false
-					for _, cl := range c.literalsAt(u, as) {
-						pre, low, found := c.prefixFilter(u, cl.e)
+					for _, cl := range c.literalsAt(sf, as) {
+						pre, low, found := c.prefixFilter(sf, cl.e)
 						if found && pre == "x-" && low && cl.neg {
 							excluded = true
 						}
@@ -627,8 +678,7 @@ func ruleFragmentDisjoint(c *Ctx) {
 						routed = false
 					}
 				}
-				return true
-			})
+			}
 			routed = routed && nstores > 0
 			c.ob(rule, "Schema.UnmarshalJSON:x-routing", fillLoop.Pos(), routed,
 				"x- keys must be routed to Extensions and skipped, or they are emitted twice (extensions fragment and ExtraProps fragment)")
